@@ -249,6 +249,10 @@ func (r *Report) Evidence(out *Outcome, tier string, seed int, wall float64, exp
 			"documented behaviour of the standard library and third-party callees named in the rules",
 		},
 		"notes": r.notes,
+		"canonical_names": map[string]any{
+			"rule":    "unexported anchors are located by role (internal/core/anchors.go); one that carries another name in the tree is analysed under the name the rules use (renaming overlay, re-type-checked)",
+			"renamed": r.Prog.CanonNotes,
+		},
 	}
 	for k, v := range extra {
 		cov[k] = v
